@@ -3,15 +3,21 @@
 name <ID>-e<k>-<slug of the first notes line>, needs_to_manifest = the first lines of notes.md."""
 import os, re, subprocess, sys
 HERE = os.path.dirname(os.path.dirname(os.path.abspath(__file__)))
-root, ids = sys.argv[1], sys.argv[2:]
+args = sys.argv[1:]
+rnd = 'e'
+if '--round' in args:
+    i = args.index('--round'); rnd = args[i + 1]; del args[i:i + 2]
+root, ids = args[0], args[1:]
 for pid in ids:
     for k in ('1', '2', '3'):
         d = os.path.join(root, pid, 'seed', k)
         if not os.path.exists(os.path.join(d, 'patch.diff')):
-            print(pid, k, 'missing'); continue
+            if k != '3':
+                print(pid, k, 'missing')
+            continue
         notes = [l.strip(' -*#`') for l in open(os.path.join(d, 'notes.md')) if l.strip(' -*#`\n')] if os.path.exists(os.path.join(d, 'notes.md')) else []
         slug = re.sub(r'[^a-z0-9]+', '-', (notes[0] if notes else 'change').lower()).strip('-')[:40].rstrip('-')
         needs = ' '.join(notes[:3])[:400]
-        r = subprocess.run(['python3', os.path.join(HERE, 'tools', 'seed_intake.py'), os.path.join(root, pid), '%s-e%s-%s' % (pid, k, slug), pid,
+        r = subprocess.run(['python3', os.path.join(HERE, 'tools', 'seed_intake.py'), os.path.join(root, pid), '%s-%s%s-%s' % (pid, rnd, k, slug), pid,
                             '--sub', k, '--needs', needs], capture_output=True, text=True)
         print((r.stdout.strip().splitlines() or [r.stderr[-300:]])[-1][:400], flush=True)
